@@ -6,6 +6,7 @@ package main
 // against StreamExt.tla / StreamOut.tla.
 
 import (
+	"io"
 	"errors"
 	log "github.com/sirupsen/logrus"
 	"math/rand"
@@ -72,6 +73,7 @@ type scriptedConn struct {
 	written    int64
 	overrun    bool
 	overrunCh  chan struct{}
+	failEOF    bool  // inbound failure is reported as io.EOF (the peer closed its end) instead of a generic error
 	faultAt    int64 // outbound fault: the Write call that crosses this byte offset accepts only the bytes up to it and reports a timeout
 	faulted    bool
 	faultCh    chan struct{}
@@ -108,6 +110,9 @@ func (c *scriptedConn) Read(p []byte) (int, error) {
 			c.rest = b
 		case <-c.fail:
 			c.log.add(J{"e": "Fail"})
+			if c.failEOF {
+				return 0, io.EOF // the peer closed its end
+			}
 			return 0, errors.New("scripted connection failure")
 		case <-c.closedCh:
 			return 0, errors.New("read scripted: use of closed network connection")
@@ -401,6 +406,7 @@ func runStreamIn(sc J) J {
 
 	lg := &evlog{last: time.Now()}
 	conn := newScriptedConn(lg)
+	conn.failEOF = sc["failEOF"] == true
 	gp := &gatingParser{log: lg, begun: make(chan struct{}, 1)}
 	cmds, _ := sc["sched"].([]interface{})
 	gp.gating = len(cmds) > 0 && sc["gate"] != false
